@@ -3,8 +3,10 @@
 package requeuer
 
 import (
+	"context"
 	"errors"
 	"strconv"
+	"time"
 
 	"github.com/ThreeDotsLabs/watermill/message"
 	"github.com/ThreeDotsLabs/watermill/zzverif/vrt"
@@ -69,4 +71,22 @@ func HarnessC17Requeue() {
 	vrt.Assert(msg.Metadata.Get(RetriesKey) == strconv.Itoa(want), "the retries counter is raised by exactly one")
 	vrt.Assert(msg.Metadata.Get(k) == v && len(msg.Metadata) == 2, "other metadata intact")
 	vrt.Assert((err != nil) == pub.fail, "Ack only if the destination accepted it, Nack when it fails")
+}
+
+// HarnessC17RequeueDelay: with Delay > 0 the handler waits; if the message context ends during the wait the
+// message is neither published nor acknowledged (an error is returned, so the Router Nacks it).
+func HarnessC17RequeueDelay() {
+	pub := &rqPublisher{}
+	r := &Requeuer{config: Config{Publisher: pub, Delay: time.Second, GeneratePublishTopic: func(p GeneratePublishTopicParams) (string, error) {
+		return "dest", nil
+	}}}
+	msg := message.NewMessage("u", nil)
+	ctx, cancel := context.WithCancel(context.Background())
+	msg.SetContext(ctx)
+	go cancel()
+	err := r.handler(msg)
+	vrt.Observe("published", len(pub.calls))
+	vrt.Assert(len(pub.calls) <= 1, "at most one publish")
+	vrt.Assert(err == nil || len(pub.calls) == 0, "an error means nothing was published")
+	vrt.Assert(err != nil || len(pub.calls) == 1, "the message is acknowledged (nil) only after the destination accepted it")
 }
